@@ -24,7 +24,9 @@ static int ref_ncmp(const char *a, long la, const char *b, long lb, idx_t n, int
     int r = ref_cmp(a, c, b, c, fold);
     if (r) return r;
     if (ta == tb) return 0;
-    *weak = 1;
+    /* one truncated operand is a strict prefix of the other: the ideal sequences compare by length (the shorter sorts first).
+     * Appendix A.1 had left this region weak; it is strong now -- the statement says the cmp family answers as the ideal sequence would. */
+    vh_count("q_ncmp_strict_prefix_pairs", 1);
     return sgn(ta - tb);
 }
 static const char *cmpname(int c) { return c < 0 ? "LESS" : c > 0 ? "GREATER" : "EQUAL"; }
